@@ -1,12 +1,12 @@
 SPECIFICATION Spec
 CONSTANTS
-  NV = 3
-  Ord <- O201
-  Slots = 0
-  MaxNodes = 4
-  MaxCache = 2
-  Cnfs <- NoCnfs
-  Ops <- BinOps
+  NV = 2
+  Ord <- O10
+  Slots = 1
+  MaxNodes = 7
+  MaxCache = 9
+  Cnfs <- Cnfs3
+  Ops <- CnfOps
   GetIgnoresCompl = FALSE
   GetIgnoresKey = FALSE
 INVARIANTS ResultOK ShapeOK Canonical CacheSound CacheShape CacheStandard
